@@ -328,7 +328,9 @@ class WaitIterator:
     ``WaitIterator.current_future``, or ``WaitIterator.current_index``
     to get the index of the awaitable from the input list. (if keyword
     arguments were used in the construction of the `WaitIterator`,
-    ``current_index`` will use the corresponding keyword).
+    ``current_index`` will use the corresponding keyword). An awaitable
+    that is passed more than once is yielded once for each of its
+    positions.
 
     `WaitIterator` implements the async iterator
     protocol, so it can be used with the ``async for`` statement (note
@@ -348,18 +350,25 @@ class WaitIterator:
 
     """
 
-    _unfinished: dict[Future, int | str] = {}
+    _unfinished: dict[Future, "collections.deque[int | str]"] = {}
 
     def __init__(self, *args: Future, **kwargs: Future) -> None:
         if args and kwargs:
             raise ValueError("You must provide args or kwargs, not both")
 
         if kwargs:
-            self._unfinished = {f: k for (k, f) in kwargs.items()}
+            keyed: Iterable[tuple[int | str, Future]] = kwargs.items()
             futures: Sequence[Future] = list(kwargs.values())
         else:
-            self._unfinished = {f: i for (i, f) in enumerate(args)}
+            keyed = enumerate(args)
             futures = args
+
+        # The same future may be passed more than once (its done callback
+        # then runs once per position), so remember every index/keyword
+        # under which a future was passed, in argument order.
+        self._unfinished = {}
+        for k, f in keyed:
+            self._unfinished.setdefault(f, collections.deque()).append(k)
 
         self._finished: collections.deque[Future] = collections.deque()
         self.current_index: str | int | None = None
@@ -407,7 +416,10 @@ class WaitIterator:
         res = self._running_future
         self._running_future = None
         self.current_future = done
-        self.current_index = self._unfinished.pop(done)
+        keys = self._unfinished[done]
+        self.current_index = keys.popleft()
+        if not keys:
+            del self._unfinished[done]
 
         return res
 
